@@ -139,6 +139,7 @@ type State struct {
 	trace  []string
 	ghost  *Ghost
 	dead   bool
+	rec    []recordedCall // ghost log of recorded calls (front-end layer)
 }
 
 type Frame struct {
@@ -155,7 +156,7 @@ type Frame struct {
 	// entry snapshot for old()
 	entryHeap  map[int]Value
 	params     []Value
-	onReturn   func(st *State, results []Value) // used for top-level
+	onReturn   func(st *State, fr *Frame, results []Value) // used for top-level
 	isDefer    bool
 	headerDone bool
 	wrapAwait  bool
@@ -178,7 +179,7 @@ type loopCut struct {
 }
 
 func (s *State) clone() *State {
-	n := &State{pc: append([]Term(nil), s.pc...), heap: make(map[int]Value, len(s.heap)), trace: append([]string(nil), s.trace...)}
+	n := &State{pc: append([]Term(nil), s.pc...), heap: make(map[int]Value, len(s.heap)), trace: append([]string(nil), s.trace...), rec: append([]recordedCall(nil), s.rec...)}
 	for k, v := range s.heap {
 		n.heap[k] = v
 	}
